@@ -10,7 +10,7 @@ from .. import sym
 from ..evalfn import SELF, property_backing
 from ..source import AnalysisError
 from ..sym import canon
-from .common import (CORE, G, plain, Roles, cur, dominates, final_value, fld, guard_subset, has_lit, hist_fill, hist_store, is_entry, lits, loops_prefix,
+from .common import (CORE, G, GX, plain, Roles, cur, dominates, final_value, fld, guard_subset, has_lit, hist_fill, hist_store, is_entry, lits, loops_prefix,
                      mentions_field, mentions_param, postdominates, series_name, short)
 
 SEC_CLASSES = ["SecurityBase", "Security", "FixedIncomeSecurity", "CouponPayingSecurity", "HedgeSecurity", "CouponPayingHedgeSecurity"]
@@ -619,8 +619,10 @@ def _index_rules(chk, pid, S, fi, host, R):
             continue
         if not_fi and pid == "C03":
             seen["mv"] += 1
-            for gv, v in sym.split_cases(w.value):
-                gg = set(g) | set(lits(gv))
+            for gv, v, raws in sym.split_cases(w.value, raw=True):
+                gg = GX(w, gv, raws)
+                rr = lambda x: sym.restrict(x, gg)
+                v, lp, V, base = rr(v), rr(cur(w, SELF, LP)), rr(cur(w, SELF, R.VALUE)), rr(("+", cur(w, SELF, LV), cur(w, SELF, R.NET_FLOWS)))
                 zero_base = sym.lit_holds(gg, ("zero", sym._abs_norm(sym.to_rat(base))), True)
                 nz_base = sym.lit_holds(gg, ("zero", sym._abs_norm(sym.to_rat(base))), False)
                 if nz_base:
@@ -641,8 +643,12 @@ def _index_rules(chk, pid, S, fi, host, R):
             ln, N = cur(w, SELF, LN), cur(w, SELF, R.NOTIONAL)
             pnl = ("-", V, base)
             par = sym.num(chk.prog.const_value(CORE, "PAR") or 100.0)
-            for gv, v in sym.split_cases(w.value):
-                gg = set(g) | set(lits(gv))
+            for gv, v, raws in sym.split_cases(w.value, raw=True):
+                gg = GX(w, gv, raws)
+                rr = lambda x: sym.restrict(x, gg)
+                v, lp, V, ln, N = rr(v), rr(cur(w, SELF, LP)), rr(cur(w, SELF, R.VALUE)), rr(cur(w, SELF, LN)), rr(cur(w, SELF, R.NOTIONAL))
+                base = rr(("+", cur(w, SELF, LV), cur(w, SELF, R.NET_FLOWS)))
+                pnl = ("-", V, base)
                 if sym.lit_holds(gg, ("zero", sym._abs_norm(sym.to_rat(ln))), False):
                     ok, exp, key = equal(v, ("+", lp, ("/", ("*", par, pnl), ln))), "last_price + PAR * pnl / last_notional", "index-formula:fi"
                 elif sym.lit_holds(gg, ("zero", sym._abs_norm(sym.to_rat(N))), False):
@@ -832,3 +838,646 @@ def _paper_rules(chk, pid, S, fi, host, R):
                 ok = ok and not extra
         chk.ob("C09.R5", ok, CORE, host, "publish-child-price", "on every update each sub-strategy's price is published into the parent's universe at the current date",
                where=fi.where, expected="_universe.loc[date, c] = children[c].price for c in _strat_children", found="%d publication sites" % len(pubs))
+
+
+# ------------------------------------------------------------------------------------------------
+# Mutators: outlay / transact / adjust / allocate, ownership of primary state, deferred updates
+
+OUTLAY_REF = '''
+def ref(self, q, p=None):
+    if p is None:
+        fee = self.parent.commission_fn(q, self._price * self.multiplier)
+        bidoffer = abs(q) * 0.5 * self._bidoffer * self.multiplier
+    else:
+        fee = self.parent.commission_fn(q, p * self.multiplier)
+        bidoffer = q * (p - self._price) * self.multiplier
+    outlay = q * self._price * self.multiplier + bidoffer
+    return outlay + fee, outlay, fee, bidoffer
+'''
+
+
+def bound_args(ev, prog):
+    """param name -> value for a call event, through the first resolvable callee."""
+    out = dict(ev.kwargs or {})
+    callee = (ev.callee or [None])[0]
+    if callee is None:
+        return out
+    params = list(callee.params)
+    if callee.cls is not None and params and params[0] == "self":
+        params = params[1:]
+    for p, a in zip(params, ev.args or []):
+        out.setdefault(p, a)
+    for p in params:
+        if p not in out and p in callee.defaults:
+            try:
+                out[p] = _const(callee.defaults[p])
+            except Exception:
+                pass
+    return out
+
+
+def _const(node):
+    v = ast.literal_eval(node)
+    if v is None:
+        return sym.NONE
+    if isinstance(v, bool):
+        return ("bool", v)
+    return sym.num(v)
+
+
+def outlay_rules(chk, pid):
+    """C07.R1 (also C02, C05): the cash needed for a trade is notional + half spread (or custom-price difference) + commission."""
+    R = Roles(chk.prog)
+    fi = chk.prog.func(CORE, "SecurityBase", "outlay")
+    S = chk.summary(CORE, "SecurityBase", "outlay", host="SecurityBase")
+    src = OUTLAY_REF.replace("_price", R.SPRICE).replace("_bidoffer", R.BIDOFFER)
+    ref = chk.ref(src, "SecurityBase")
+    host = "SecurityBase.outlay"
+    chk.site()
+    chk.need(fi.params[:2] == ["self", "q"] and "p" in fi.params, "SecurityBase.outlay(q, p=None) changed its signature")
+    names = ["full outlay", "outlay", "fee", "bid/offer cost"]
+    n = 0
+    code_cases, ref_cases = S.return_cases(), ref.return_cases()
+    pnone = ("isnone", ("param", "p"))
+    for pol in (True, False):
+        gg = sym.sat([(pnone, pol)])
+        cc = [sym.restrict(v, gg) for g, v in code_cases if _consistent(gg, g)]
+        rr = [sym.restrict(v, gg) for g, v in ref_cases if _consistent(gg, g)]
+        if len(cc) != 1 or len(rr) != 1 or not (cc[0][0] == "tuple" and len(cc[0]) == 5):
+            chk.ob("C07.R1", False, CORE, host, "outlay-shape", "outlay returns (full outlay, outlay, fee, bid/offer cost)", where=fi.where, found=short(cc[0]) if cc else "no return")
+            continue
+        v, rv = cc[0], rr[0]
+        for i in range(4):
+            n += 1
+            ok = equal(v[1 + i], rv[1 + i])
+            chk.ob("C07.R1", ok, CORE, host, "outlay-component:%s:%s" % (names[i], "market" if pol else "custom-price"),
+                   "each trade moves q x price x multiplier plus the half-spread (or custom-price difference) as outlay and commission(q, price x multiplier) as fee",
+                   where=fi.where, expected=short(rv[1 + i], 200), found=short(v[1 + i], 200), sample={"component": names[i], "value": short(v[1 + i], 160)})
+    chk.need(n >= 8, "SecurityBase.outlay: could not align its return cases with the reference")
+    # purity (C05.R8 / C07.R6)
+    ws = [e for e in S.events if e.kind in ("write", "store") or (e.kind == "call" and e.extra == "mutate")]
+    chk.ob("C07.R6", not ws, CORE, host, "outlay-pure", "probing the cost of a trade books nothing", where=fi.where, found="; ".join(repr(e)[:80] for e in ws[:3]))
+    # commission resolves to the parent's commission function (C07.R5)
+    if pid in ("C07",):
+        C = chk.summary(CORE, "SecurityBase", "commission", host="SecurityBase")
+        okc = False
+        for g, v in C.return_cases():
+            okc = v[0] == "fcall" and v[1][0] == "fld" and v[1][2] == "parent" and canon(v[1][1]) == canon(SELF) and len(v[3]) == 2 and v[3][0] == ("param", "q") and v[3][1] == ("param", "p")
+        chk.ob("C07.R5", okc, CORE, "SecurityBase.commission", "commission-from-own-parent", "the commission of a trade is the security's own parent's commission function at (q, p)",
+               where=C.fn.where)
+
+
+def transact_rules(chk, pid):
+    R = Roles(chk.prog)
+    fi = chk.prog.func(CORE, "SecurityBase", "transact")
+    S = chk.summary(CORE, "SecurityBase", "transact", host="SecurityBase", no_inline=("update",))
+    host = "SecurityBase.transact"
+    chk.site()
+    q = ("param", "q")
+    price = ("param", "price")
+    outs = [e for e in S.calls("outlay") if e.recv == SELF]
+    adj = [e for e in S.calls("adjust")]
+    chk.need(outs, "%s no longer prices the trade through outlay()" % host)
+    chk.need(adj, "%s no longer passes the trade's cash to the parent through adjust()" % host)
+    o = outs[-1]
+    ob = bound_args(o, chk.prog)
+    res = o.result
+    ok_args = canon(ob.get("q", sym.NONE)) == canon(q) and canon(ob.get("p", sym.NONE)) == canon(price)
+    if pid in ("C02", "C07"):
+        chk.ob("C02.R1", ok_args, CORE, host, "outlay-args", "the booked cost is the cost of exactly this trade (q at the given price)", where=o.where,
+               expected="outlay(q, p=price)", found="outlay(%s, p=%s)" % (short(ob.get("q", sym.NONE)), short(ob.get("p", sym.NONE))))
+    comps = None
+    if res is not None:
+        cs = sym.cases(res)
+        if all(v[0] == "tuple" and len(v) == 5 for _, v in cs):
+            comps = [tuple((g, v[1 + i]) for g, v in cs) for i in range(4)]
+
+    def comp(i, gg):
+        for g, v in comps[i]:
+            if _consistent(gg, g):
+                return sym.restrict(v, gg)
+        return None
+
+    chk.need(comps is not None, "%s: outlay() result is not a 4-tuple" % host)
+    chk.ob("C03.R4" if pid == "C03" else "C07.R2", len(adj) == 1, CORE, host, "single-adjust", "a trade moves the parent's cash in one non-flow adjustment carrying the fee",
+           where=fi.where, expected="one parent.adjust call", found="%d calls" % len(adj))
+    for a in adj:
+        gg = G(a)
+        ab = bound_args(a, chk.prog)
+        full, out, fee, bo = comp(0, gg), comp(1, gg), comp(2, gg), comp(3, gg)
+        recv_ok = a.recv is not None and a.recv[0] == "fld" and a.recv[2] == "parent" and canon(a.recv[1]) == canon(SELF)
+        if pid in ("C02", "C07"):
+            chk.ob("C07.R2", recv_ok, CORE, host, "adjust-receiver", "the cost of a trade is charged to the security's own parent", where=a.where, expected="self.parent.adjust",
+                   found=short(a.recv) if a.recv else "?")
+            amt = ab.get("amount")
+            ok = amt is not None and full is not None and equal(sym.restrict(amt, gg), ("neg", full))
+            chk.ob("C02.R1", ok, CORE, host, "adjust-amount", "the parent's cash moves by minus the full outlay (notional + spread + fee): value changes only by the explicit costs",
+                   where=a.where, expected="-(full outlay)", found=short(amt, 200) if amt else "missing", sample={"amount": short(amt, 160) if amt else None})
+            f = ab.get("fee")
+            ok = f is not None and fee is not None and equal(sym.restrict(f, gg), fee)
+            chk.ob("C07.R2", ok, CORE, host, "adjust-fee", "the commission is recorded as the parent's fee, once", where=a.where, expected="fee = commission component of outlay()",
+                   found=short(f, 160) if f else "missing")
+            u = ab.get("update")
+            chk.ob("C01.R6", u is not None and canon(u) == canon(("param", "update")), CORE, host, "adjust-update-flag", "the caller's update flag is handed to the parent", where=a.where)
+        if pid in ("C03", "C07"):
+            fl = ab.get("flow")
+            chk.ob("C03.R4", fl is not None and canon(fl) == canon(sym.FALSE), CORE, host, "adjust-flow:trade", "trade proceeds and fees are never a flow", where=a.where,
+                   expected="flow=False", found=short(fl) if fl else "default (flow)", sample={"flow": short(fl) if fl else "default"})
+    # position, accumulators and typestate on the trading path
+    a = adj[-1]
+    for st, _ in S.exits:
+        g0 = G(st)
+        qf = sym.restrict(final_value(st, SELF, R.POSITION), g0)
+        for cg, leaf in sym.cases(qf):
+            gg = sym.sat(tuple(g0) + tuple(cg))
+            traded = guard_subset(a.guard, gg)
+            if is_entry(leaf, SELF, R.POSITION):
+                if pid in ("C02", "C07", "C01"):
+                    chk.ob("C02.R1", not traded, CORE, host, "position-moves-with-cash", "cash moves only together with the position", where=fi.where)
+                continue
+            if pid in ("C02", "C07"):
+                pws = [w for w in S.writes(R.POSITION, SELF) if guard_subset(w.guard, gg)]
+                okp = len(pws) == 1 and pws[0].aug == "+" and equal(pws[0].extra, q)
+                chk.ob("C02.R1", okp and traded, CORE, host, "position-delta", "the position changes by exactly the traded quantity",
+                       where=fi.where, expected="position + q", found=short(leaf), sample={"position": short(leaf)})
+            if pid in ("C01", "C02"):
+                nu = sym.restrict(final_value(st, SELF, R.NEEDUPDATE), gg)
+                chk.ob("C01.R5", canon(nu) == canon(sym.TRUE), CORE, host, "needupdate-on-after-trade", "a security whose position changed is put back into the update loop",
+                       where=fi.where, expected="%s = True on every trading exit" % R.NEEDUPDATE, found=short(nu))
+            if pid in ("C07",):
+                acc = _outlay_acc(chk, R)
+                for fname, ci, key, what in ((acc, 1, "outlay-accumulated", "the fee-free outlay is accumulated for the date's outlay row"),
+                                             (R.BIDOFFER_PAID, 3, "bidoffer-accumulated", "the spread cost is accumulated as bid/offer paid")):
+                    ws = [w for w in S.writes(fname, SELF) if guard_subset(w.guard, gg)]
+                    ok = len(ws) == 1 and ws[0].aug == "+" and comp(ci, gg) is not None and equal(sym.restrict(ws[0].extra, gg), comp(ci, gg))
+                    chk.ob("C07.R2", ok, CORE, host, key, what, where=ws[0].where if ws else fi.where, expected="%s += %s component of outlay()" % (fname, ["full", "outlay", "fee", "bidoffer"][ci]),
+                           found=short(ws[0].extra, 200) if ws else "no write")
+    # guards (C10.R1 custom price, zero quantity no-op)
+    pw = S.writes(R.POSITION, SELF)
+    if pid == "C10":
+        raises = [e for e in S.raises if has_lit(e.guard, ("isnone", price), False) and has_lit(e.guard, fld(SELF, "_bidoffer_set"), False)]
+        ok = bool(raises) and all(any(r.seq < w.seq for r in raises) for w in pw)
+        chk.ob("C10.R1", ok, CORE, host, "guard:custom-price-without-bidoffer", "a custom-price trade without bid/offer data must raise before the position changes", where=fi.where)
+    if pid in ("C05", "C07", "C02"):
+        for w in pw:
+            gw = G(w)
+            ok = sym.lit_holds(gw, ("zero", sym._abs_norm(sym.to_rat(q))), False)
+            chk.ob("C05.R1", ok, CORE, host, "zero-quantity-noop", "a zero (or NaN) quantity trades nothing", where=w.where)
+
+
+def _outlay_acc(chk, R):
+    """The pending-outlay accumulator: the field flushed into the outlays row by SecurityBase.update."""
+    S = chk.summary(CORE, "SecurityBase", "update", host="SecurityBase")
+    for e in S.events:
+        hs = hist_store(e)
+        if hs and series_name(hs[0]) == R.OUTLAYS:
+            for n in sym.walk(hs[2]):
+                if n[0] == "fld" and canon(n[1]) == canon(SELF):
+                    return n[2]
+    raise AnalysisError("SecurityBase.update no longer flushes a pending outlay into the outlays row")
+
+
+def adjust_rules(chk, pid):
+    """The credit primitive (C02.R4 / C03.R3 / C07.R3 / C01.R6)."""
+    R = Roles(chk.prog)
+    fi = chk.prog.func(CORE, "StrategyBase", "adjust")
+    S = chk.summary(CORE, "StrategyBase", "adjust", host="StrategyBase")
+    host = "StrategyBase.adjust"
+    chk.site()
+    amount, fee, flow, update = ("param", "amount"), ("param", "fee"), ("param", "flow"), ("param", "update")
+    chk.need(len(S.exits) >= 1, "%s has no normal exit" % host)
+    for st, _ in S.exits:
+        g0 = G(st)
+        if pid in ("C02", "C07", "C01"):
+            cap = sym.restrict(final_value(st, SELF, R.CAPITAL), g0)
+            ok = all(equal(leaf, ("+", fld(SELF, R.CAPITAL), amount)) for _, leaf in sym.cases(cap))
+            chk.ob("C02.R4", ok, CORE, host, "credit-capital", "adjust moves the strategy's cash by exactly the amount, whatever the flags", where=fi.where, expected="capital + amount",
+                   found=short(cap), sample={"capital": short(cap)})
+        if pid in ("C07",):
+            lf = sym.restrict(final_value(st, SELF, R.LAST_FEE), g0)
+            ok = all(equal(leaf, ("+", fld(SELF, R.LAST_FEE), fee)) for _, leaf in sym.cases(lf))
+            chk.ob("C07.R3", ok, CORE, host, "credit-fee", "the fee of the date accumulates every fee passed to adjust", where=fi.where, expected="last_fee + fee", found=short(lf))
+        if pid in ("C03", "C07"):
+            nf = sym.restrict(final_value(st, SELF, R.NET_FLOWS), g0)
+            for cg, leaf in sym.cases(nf):
+                gg = sym.sat(tuple(g0) + tuple(cg))
+                is_flow = sym.lit_holds(gg, flow, True)
+                not_flow = sym.lit_holds(gg, flow, False)
+                if is_flow:
+                    ok = equal(leaf, ("+", fld(SELF, R.NET_FLOWS), amount))
+                elif not_flow:
+                    ok = is_entry(leaf, SELF, R.NET_FLOWS)
+                else:
+                    ok = False
+                chk.ob("C03.R3", ok, CORE, host, "credit-flow:%s" % ("flow" if is_flow else "non-flow" if not_flow else "unconditional"),
+                       "the flow accumulator grows by the amount exactly when the adjustment is a flow", where=fi.where,
+                       expected="net_flows + amount under flow; unchanged otherwise", found=short(leaf), sample={"net_flows": short(leaf), "guard": sym.fmt_guard(cg)})
+    if pid in ("C01", "C08"):
+        sw = [w for w in S.writes(R.STALE) if canon(w.value) == canon(sym.TRUE) and w.obj[0] == "fld" and w.obj[2] == "root"]
+        ok = bool(sw) and all(set(plain(w.guard)) <= {(canon(update), True)} for w in sw)
+        chk.ob("C01.R6", ok, CORE, host, "stale-after-mutation", "changing cash marks the tree stale (unless the caller defers the update)", where=fi.where,
+               expected="root.stale = True under `update`", found="; ".join(sym.fmt_guard(w.guard) for w in sw) or "no write of root.%s" % R.STALE)
+
+
+ALLOWED_WRITERS = {
+    # role -> {(class, function): reason}
+    "CAPITAL": {("Node", "__init__"): "zero initialisation", ("StrategyBase", "adjust"): "the credit primitive", ("StrategyBase", "update"): "coupon sweep (pair checked by C02.R3)",
+                ("CouponPayingSecurity", "update"): "carry parked on the security node (C17.R2)"},
+    "POSITION": {("SecurityBase", "__init__"): "zero initialisation", ("SecurityBase", "transact"): "the only place a position changes (C02.R1)"},
+    "NET_FLOWS": {("StrategyBase", "__init__"): "zero initialisation", ("StrategyBase", "adjust"): "flow credit", ("StrategyBase", "update"): "reset on date change (C03.R2)"},
+    "LAST_FEE": {("StrategyBase", "__init__"): "zero initialisation", ("StrategyBase", "adjust"): "fee credit", ("StrategyBase", "update"): "reset on date change (C03.R2)"},
+}
+
+
+def ownership_rules(chk, pid, roles=("CAPITAL", "POSITION", "NET_FLOWS", "LAST_FEE")):
+    """T-OWN: who may write primary state (whole program, every attribute store)."""
+    R = Roles(chk.prog)
+    names = {"CAPITAL": R.CAPITAL, "POSITION": R.POSITION, "NET_FLOWS": R.NET_FLOWS, "LAST_FEE": R.LAST_FEE}
+    found = {r: 0 for r in roles}
+    for f in chk.prog.all_functions(modules=("bt/core.py", "bt/algos.py", "bt/backtest.py")):
+        for n in ast.walk(f.node):
+            targets = []
+            if isinstance(n, ast.Assign):
+                targets = n.targets
+            elif isinstance(n, (ast.AugAssign, ast.AnnAssign)):
+                targets = [n.target]
+            for t in targets:
+                for el in ast.walk(t):
+                    if isinstance(el, ast.Attribute) and isinstance(el.ctx, ast.Store):
+                        for r in roles:
+                            if el.attr == names[r]:
+                                found[r] += 1
+                                chk.site()
+                                ok = (f.cls, f.name) in ALLOWED_WRITERS[r]
+                                rule = {"CAPITAL": "C02.R4", "POSITION": "C02.R4", "NET_FLOWS": "C03.R3", "LAST_FEE": "C07.R3"}[r]
+                                chk.ob(rule, ok, f.module, f.qual, "writer:%s" % names[r],
+                                       "%s may be written only by its enumerated owners (%s)" % (names[r], ", ".join("%s.%s" % k for k in ALLOWED_WRITERS[r])),
+                                       where="%s:%d" % (f.module, n.lineno), found="written in %s" % f.qual, sample={"field": names[r], "writer": f.qual})
+                    # setattr-style writes through __dict__ are out of model
+    for r in roles:
+        chk.floor_count("T-OWN:%s" % names[r], found[r], 2)
+
+
+MUTATOR_NAMES = ("adjust", "allocate", "transact", "rebalance", "close")
+
+
+def defer_rules(chk, pid, modules=("bt/core.py", "bt/algos.py"), only_hosts=None):
+    """T-DEFER (C01.R6): a mutator called with update=False sits in a bracket that ends in a refresh of the root."""
+    R = Roles(chk.prog)
+    n_sites = 0
+    for f in chk.prog.all_functions(modules=modules):
+        src_has = any(isinstance(n, ast.keyword) and n.arg == "update" and isinstance(n.value, ast.Constant) and n.value.value is False for n in ast.walk(f.node))
+        pos_false = any(isinstance(n, ast.Call) and isinstance(n.func, ast.Attribute) and n.func.attr in MUTATOR_NAMES and any(isinstance(a, ast.Constant) and a.value is False for a in n.args)
+                        for n in ast.walk(f.node))
+        if not (src_has or pos_false):
+            continue
+        if only_hosts is not None and f.qual not in only_hosts:
+            continue
+        host_cls = f.cls
+        S = chk.summary(f.module, f.cls, f.name, host=host_cls, no_inline=MUTATOR_NAMES + ("update", "flatten", "_create_child_if_needed"))
+        for e in S.events:
+            if e.kind != "call" or e.name not in MUTATOR_NAMES or e.recv is None:
+                continue
+            ab = bound_args(e, chk.prog)
+            u = ab.get("update")
+            if u is None or canon(u) != canon(sym.FALSE):
+                continue
+            n_sites += 1
+            chk.site()
+            closers = []
+            for c in S.events:
+                if c.seq <= e.seq:
+                    continue
+                is_stale = c.kind == "write" and c.field == R.STALE and canon(c.value) == canon(sym.TRUE) and c.obj[0] == "fld" and c.obj[2] == "root"
+                is_update = c.kind == "call" and c.name == "update" and c.recv is not None and c.recv[0] == "fld" and c.recv[2] == "root"
+                if not (is_stale or is_update):
+                    continue
+                extra = [l for l in plain(c.guard) if not sym.lit_holds(sym.sat(e.guard), l[0], l[1])]
+                own_update = [l for l in extra if canon(l[0]) == canon(("param", "update")) and l[1]]
+                if len(extra) == len(own_update) and loops_prefix(c.loops, e.loops):
+                    closers.append(c)
+            key = "deferred:%s" % e.name
+            chk.ob("C01.R6", bool(closers), f.module, f.qual, key,
+                   "a %s(update=False) call must be followed on every path by root.update(...) or root.stale = True (possibly under the host's own `update` flag)" % e.name,
+                   where=e.where, expected="refresh of the ROOT after the deferred call", found="no closing refresh on the path",
+                   sample={"call": "%s(update=False)" % e.name, "closer": repr(closers[0])[:120] if closers else None})
+            for c in closers[:1]:
+                if c.kind == "call":
+                    base = c.recv[1]
+                    a0 = c.args[0] if c.args else None
+                    ok = a0 is not None and a0[0] == "fld" and a0[2] == "now" and (canon(a0[1]) == canon(base) or canon(a0[1]) == canon(c.recv))
+                    chk.ob("C01.R6", ok, f.module, f.qual, key + ":refresh-date", "the closing refresh updates the root to the current date", where=c.where,
+                           expected="root.update(<node>.now)", found=short(a0) if a0 else "no date")
+    return n_sites
+
+
+ALLOCATE_NOINLINE = ("adjust", "allocate", "update", "_create_child_if_needed", "transact", "close", "flatten")
+
+
+def strategy_allocate_rules(chk, pid):
+    """C02.R2 / C03.R4 / C06.R7: capital pushed into a strategy is debited from its parent, credited to it, and spread by child weight."""
+    R = Roles(chk.prog)
+    fi = chk.prog.func(CORE, "StrategyBase", "allocate")
+    S = chk.summary(CORE, "StrategyBase", "allocate", host="StrategyBase", no_inline=ALLOCATE_NOINLINE)
+    host = "StrategyBase.allocate"
+    chk.site()
+    amount = ("param", "amount")
+    child_none = ("isnone", ("param", "child"))
+    adj = S.calls("adjust")
+    par = [e for e in adj if e.recv is not None and e.recv[0] == "fld" and e.recv[2] == "parent"]
+    own = [e for e in adj if e.recv == SELF]
+    chk.need(par and own, "%s no longer moves capital between the parent and itself through adjust()" % host)
+    if pid in ("C02", "C07", "C06"):
+        for o in own:
+            go = G(o)
+            ob_ = bound_args(o, chk.prog)
+            debits = [p for p in par if _consistent(G(p), go)]
+            # on every path through the credit there is exactly one debit with the opposite amount
+            ok = bool(debits)
+            for p in debits:
+                pb = bound_args(p, chk.prog)
+                ok = ok and pb.get("amount") is not None and ob_.get("amount") is not None and sym.to_rat(("+", pb["amount"], ob_["amount"])).is_zero()
+            paths_covered = _covers(debits, o)
+            chk.ob("C02.R2", ok and paths_covered, CORE, host, "transfer-balanced", "what a sub-strategy receives is exactly what its parent pays: moving capital inside the tree creates no value",
+                   where=o.where, expected="parent.adjust(-amount) on every path of self.adjust(amount)", found="%d debit sites" % len(debits),
+                   sample={"credit": short(ob_.get("amount", sym.NONE)), "debits": [short(bound_args(p, chk.prog).get("amount", sym.NONE)) for p in debits]})
+            chk.ob("C02.R2", ob_.get("amount") is not None and canon(ob_["amount"]) == canon(amount), CORE, host, "transfer-amount", "the strategy is credited with the allocated amount",
+                   where=o.where, found=short(ob_.get("amount", sym.NONE)))
+    if pid in ("C03", "C07"):
+        for p in par:
+            gp = G(p)
+            pb = bound_args(p, chk.prog)
+            fl = pb.get("flow", sym.TRUE)
+            is_root = any(pol and a[0] in ("cmp", "eq", "is") and mentions_field(a, "parent", SELF) for a, pol in gp)
+            not_root = any((not pol) and a[0] in ("cmp", "eq", "is") and mentions_field(a, "parent", SELF) for a, pol in gp)
+            if pid == "C07" and is_root:
+                continue
+            if is_root:
+                ok, exp, key = canon(fl) == canon(sym.TRUE), "flow=True (the root pays itself: net flow zero)", "adjust-flow:root-self-debit"
+            elif not_root:
+                ok, exp, key = canon(fl) == canon(sym.FALSE), "flow=False (the parent is another strategy: funding a child is not a flow of the parent)", "adjust-flow:non-root-parent-debit"
+            else:
+                ok, exp, key = False, "the debit must distinguish a root (flow) from a non-root parent (non-flow)", "adjust-flow:parent-debit-undistinguished"
+            chk.ob("C03.R4", ok, CORE, host, key, "capital handed to a sub-strategy is a flow for the child and a non-flow for its (non-root) parent", where=p.where, expected=exp,
+                   found="flow=%s" % short(fl), sample={"flow": short(fl)})
+        if pid == "C03":
+            for o in own:
+                fl = bound_args(o, chk.prog).get("flow", sym.TRUE)
+                chk.ob("C03.R4", canon(fl) == canon(sym.TRUE), CORE, host, "adjust-flow:self-credit", "capital received from the parent is a flow of the receiving strategy",
+                       where=o.where, expected="flow=True", found="flow=%s" % short(fl))
+    if pid in ("C06", "C16", "C02"):
+        spread = [e for e in S.calls("allocate") if e.recv is not None and e.recv[0] == "elem"]
+        ok = False
+        for e in spread:
+            eb = bound_args(e, chk.prog)
+            amt = eb.get("amount")
+            w = ("fld", e.recv, R.WEIGHT, 0)
+            ok = amt is not None and equal(amt, ("*", amount, w)) and e.recv[1][0] == "fld" and e.recv[1][2] == "_childrenv" and not e.loops[-1].filter
+        chk.ob("C06.R7", ok, CORE, host, "spread-by-weight", "a strategy spreads received capital over all its children in proportion to their current weights", where=fi.where,
+               expected="c.allocate(amount * c.weight) for every child", found="%d spread sites" % len(spread))
+    if pid in ("C19", "C06"):
+        direct = [e for e in S.calls("allocate") if e.recv is not None and e.recv[0] == "sub"]
+        cc = S.calls("_create_child_if_needed")
+        ok = bool(direct) and all(any(dominates(c, d) for c in cc) for d in direct)
+        chk.ob("C19.R3", ok, CORE, host, "lazy-child-before-lookup", "a child named only by a string is created before it is looked up", where=fi.where)
+        for d in direct:
+            db = bound_args(d, chk.prog)
+            chk.ob("C06.R7", db.get("amount") is not None and canon(db["amount"]) == canon(amount), CORE, host, "child-allocation-amount", "allocating to a named child passes the amount on unchanged",
+                   where=d.where)
+
+
+def _covers(debits, o):
+    """Do the debit sites cover every path through the credit? (their guards, minus o's, are complementary)"""
+    if not debits:
+        return False
+    go = sym.sat(o.guard)
+    rests = []
+    for d in debits:
+        rests.append([l for l in plain(d.guard) if not sym.lit_holds(go, l[0], l[1])])
+    if any(not r for r in rests):
+        return True
+    if len(rests) == 2 and len(rests[0]) == 1 and len(rests[1]) == 1:
+        (a1, p1), (a2, p2) = rests[0][0], rests[1][0]
+        return canon(a1) == canon(a2) and p1 != p2
+    return False
+
+
+# ------------------------------------------------------------------------------------------------
+# Accessors: refresh-on-read and slicing (C08.R3 / C08.R5 / C01.R7), raw reads of derived state (T-FRESH)
+
+
+def _derived_state(chk, R):
+    """Classify cached fields and row series by effect analysis of every `update` override:
+    tree-derived (depends on primary state of the tree) vs date-derived (data at the date only)."""
+    primary = {R.POSITION, R.CAPITAL, R.NET_FLOWS, R.LAST_FEE, _outlay_acc(chk, R)}
+    field_deps = {}
+    series_src = {}
+    classes = SEC_CLASSES + ["StrategyBase"]
+    for K in classes:
+        fi = chk.prog.resolve(K, "update")
+        S = chk.summary(fi.module, fi.cls, "update", host=K)
+        for e in S.events:
+            if e.kind == "write" and (canon(e.obj) == canon(SELF) or e.obj[0] == "elem"):
+                deps = field_deps.setdefault(e.field, set())
+                for n in sym.walk(e.value):
+                    if n[0] == "fld" and (canon(n[1]) == canon(SELF) or n[1][0] == "elem"):
+                        deps.add(n[2])
+                    if n[0] == "sum":
+                        deps.add("<children>")
+            hs = hist_store(e)
+            if hs and series_name(hs[0]):
+                deps = series_src.setdefault(series_name(hs[0]), set())
+                for n in sym.walk(hs[2]):
+                    if n[0] == "fld" and (canon(n[1]) == canon(SELF) or n[1][0] == "elem"):
+                        deps.add(n[2])
+                    if n[0] == "sum":
+                        deps.add("<children>")
+    tree = set(primary) | {"<children>"}
+    changed = True
+    while changed:
+        changed = False
+        for f, deps in field_deps.items():
+            if f not in tree and deps & tree:
+                tree.add(f)
+                changed = True
+    tree_fields = set(f for f in field_deps if f in tree) - primary
+    date_fields = set(f for f in field_deps if f not in tree)
+    tree_series = set(s for s, deps in series_src.items() if deps & tree)
+    date_series = set(s for s in series_src if s not in tree_series)
+    return primary, tree_fields, date_fields, tree_series, date_series
+
+
+def accessor_rules(chk, pid):
+    R = Roles(chk.prog)
+    prog = chk.prog
+    primary, tree_fields, date_fields, tree_series, date_series = _derived_state(chk, R)
+    input_series = {R.SPRICES, R.BIDOFFERS}
+    all_series = tree_series | date_series | input_series
+    chk.need(R.VALUE in tree_fields and R.WEIGHT in tree_fields and R.VALUES in tree_series, "effect analysis no longer finds value/weight/values to be tree-derived")
+    n_acc = 0
+    node_classes = [c for c in prog.classes if prog.is_subclass(c, "Node")]
+    for cname in node_classes:
+        ci = prog.classes[cname]
+        for name, fi in ci.methods.items():
+            if not fi.is_property:
+                continue
+            n_acc += 1
+            chk.site()
+            host = "%s.%s" % (cname, name)
+            b = property_backing(fi)
+            if b[0] == "abstract":
+                continue
+            if cname == "StrategyBase" and name == "universe":
+                continue  # C04.R3
+            is_sec = prog.is_subclass(cname, "SecurityBase")
+            S = chk.summary(fi.module, cname, name, host=cname, no_inline=("update",))
+            # what does it hand out?
+            ret_fields, ret_series, reads_accessors = set(), set(), set()
+            for e in S.events:
+                if e.kind == "return" and e.chain == (fi.qual,):
+                    for n in sym.walk(e.value):
+                        if n[0] == "fld" and canon(n[1]) == canon(SELF):
+                            if n[2] in all_series:
+                                ret_series.add(n[2])
+                            elif n[2] in tree_fields | date_fields | primary:
+                                ret_fields.add(n[2])
+                if e.kind == "propread" and e.obj != SELF and e.name in ("positions", "outlays", "values", "prices", "notional_values"):
+                    reads_accessors.add(e.name)
+            needs_tree = bool((ret_fields & tree_fields) or (ret_series & tree_series) or reads_accessors)
+            needs_self = is_sec and bool((ret_fields & (tree_fields | date_fields)) or (ret_series & (tree_series | date_series | input_series)))
+            rets = [e for e in S.events if e.kind == "return" and e.chain == (fi.qual,)]
+            tree_ref = [e for e in S.calls("update") if e.recv is not None and e.recv[0] == "fld" and e.recv[2] == "root" and canon(e.recv[1]) == canon(SELF)
+                        and any(p and a[0] == "fld" and a[2] == R.STALE for a, p in e.guard)]
+            self_ref = [e for e in S.calls("update") if e.recv == SELF]
+            if pid in ("C08", "C01") and needs_tree:
+                if pid == "C08" or (ret_fields & {R.VALUE, R.WEIGHT, R.NOTIONAL}) or (ret_series & {R.CASH, R.POSITIONS, R.VALUES, R.SVALUES}) or reads_accessors:
+                    ok = bool(rets) and all(any(t.seq < r.seq and guard_subset([l for l in t.guard if not (l[0][0] == "fld" and l[0][2] == R.STALE)], r.guard) for t in tree_ref)
+                                            for r in rets if not _raises_only(r))
+                    chk.ob("C08.R3", ok, fi.module, host, "tree-refresh", "an accessor of tree-derived state refreshes a stale tree before reading", where=fi.where,
+                           expected="if root.%s: root.update(root.now) before the read" % R.STALE, found="%d refresh sites" % len(tree_ref),
+                           sample={"accessor": host, "returns": sorted(ret_fields | ret_series | reads_accessors)})
+                    for t in tree_ref:
+                        a0 = t.args[0] if t.args else None
+                        root_now = a0 is not None and a0[0] == "fld" and a0[2] == "now" and a0[1][0] == "fld" and a0[1][2] == "root"
+                        self_now = a0 is not None and a0[0] == "fld" and a0[2] == "now" and canon(a0[1]) == canon(SELF)
+                        may_be_security = not prog.is_subclass(cname, "StrategyBase")
+                        ok = root_now or (self_now and not may_be_security)
+                        chk.ob("C08.R3", ok, fi.module, host, "tree-refresh-date", "the refresh runs the root at the ROOT's clock (a flat security's own clock may lag)", where=t.where,
+                               expected="root.update(root.now, ...)", found=short(a0) if a0 else "no date")
+            if pid in ("C08", "C01") and needs_self:
+                if pid == "C08" or (ret_series & {R.POSITIONS, R.SVALUES}):
+                    ok = bool(rets) and all(any(t.seq < r.seq for t in self_ref) for r in rets if not _raises_only(r))
+                    chk.ob("C08.R3", ok, fi.module, host, "self-refresh", "a security accessor brings the security to the tree's date before reading", where=fi.where,
+                           expected="if needupdate or now != parent.now: update(root.now)", found="%d refresh sites" % len(self_ref), sample={"accessor": host})
+                    for t in self_ref:
+                        g = G(t)
+                        a0 = t.args[0] if t.args else None
+                        okd = a0 is not None and a0[0] == "fld" and a0[2] == "now" and a0[1][0] == "fld" and a0[1][2] in ("root", "parent")
+                        okg = any(mentions_field(a, R.NEEDUPDATE, SELF) for a, p in t.guard)
+                        chk.ob("C08.R3", okd and okg, fi.module, host, "self-refresh-shape", "the self refresh is triggered by the needupdate flag or a lagging clock and runs at the tree's date",
+                               where=t.where, found="%s | %s" % (short(a0) if a0 else "-", sym.fmt_guard(t.guard)))
+            # slicing
+            if ret_series and pid in ("C08", "C04"):
+                attributed = pid == "C08" or (ret_series & input_series)
+                if attributed:
+                    ok = b[0] == "series"
+                    chk.ob("C08.R5", ok, fi.module, host, "slice-to-now", "a history handed to the user ends at the node's current date", where=fi.where,
+                           expected="%s.loc[: self.now]" % sorted(ret_series)[0], found="returned unsliced" if b[0] != "series" else "sliced",
+                           sample={"accessor": host, "series": sorted(ret_series)})
+    chk.floor_count("accessors", n_acc, 20)
+
+
+def _raises_only(r):
+    return False
+
+
+RAW_READ_EXCEPTIONS = {
+    ("StrategyBase.allocate", "WEIGHT"): "documented: spreads by the cached weight to avoid a refresh inside the deferred-update bracket",
+    ("StrategyBase.transact", "WEIGHT"): "documented: same as allocate, for notional",
+}
+
+
+def fresh_read_rules(chk, pid, hosts_for=None):
+    """T-FRESH: derived state of *another* node (value, notional, weight, price) is read through its
+    refreshing accessor, never through the cached field, except at the enumerated sites."""
+    R = Roles(chk.prog)
+    derived = {R.VALUE: "VALUE", R.NOTIONAL: "NOTIONAL", R.WEIGHT: "WEIGHT", R.PRICE: "PRICE"}
+    n = 0
+    for f in chk.prog.all_functions(modules=("bt/core.py", "bt/algos.py", "bt/backtest.py")):
+        if f.name in ("__init__",) or (f.cls and f.is_property):
+            continue
+        if hosts_for is not None and not hosts_for(f):
+            continue
+        for node in ast.walk(f.node):
+            if isinstance(node, ast.Attribute) and isinstance(node.ctx, ast.Load) and node.attr in derived:
+                base = node.value
+                if isinstance(base, ast.Name) and base.id == "self":
+                    continue
+                role = derived[node.attr]
+                n += 1
+                chk.site()
+                if f.cls == "StrategyBase" and f.name == "update":
+                    # inside update the children were just updated; reads after the liquidation need the accessor (checked below)
+                    continue
+                ok = (f.qual, role) in RAW_READ_EXCEPTIONS
+                chk.ob("C08.R3b", ok, f.module, f.qual, "raw-read:%s" % node.attr,
+                       "derived state of another node must be read through its refreshing accessor (.%s), not the cached field" % role.lower(),
+                       where="%s:%d" % (f.module, node.lineno), expected="accessor read", found="%s.%s" % (ast.unparse(base), node.attr),
+                       sample={"site": f.qual, "read": "%s.%s" % (ast.unparse(base), node.attr)})
+    return n
+
+
+def update_after_liquidation(chk, pid):
+    """Inside StrategyBase.update the weight loop runs after the possible liquidation (flatten marks the tree
+    stale): the children's values must be re-read through the refreshing accessors there."""
+    R = Roles(chk.prog)
+    S = chk.summary(CORE, "StrategyBase", "update", host="StrategyBase")
+    fl = [c for c in S.calls("flatten") if c.recv == SELF]
+    ww = [e for e in S.events if e.kind == "write" and e.field == R.WEIGHT and e.obj[0] == "elem" and canon(e.value) != canon(sym.ZERO)]
+    if not fl:
+        return
+    for w in ww:
+        if w.seq < fl[0].seq:
+            continue
+        reads = [e for e in S.events if e.kind == "propread" and e.obj == w.obj and e.name in ("value", "notional_value") and e.seq < w.seq and e.loops == w.loops
+                 and guard_subset(e.guard, w.guard)]
+        chk.ob("C08.R3b", bool(reads), CORE, "StrategyBase.update", "weights-after-liquidation-read-through-accessor",
+               "after the liquidation inside update (which marks the tree stale) the children's values are re-read through the refreshing accessor", where=w.where,
+               expected="c.value / c.notional_value", found="cached field read")
+
+
+# ------------------------------------------------------------------------------------------------
+# Recursion completeness (C19.R2 / C07.R5)
+
+
+def recursion_rules(chk, pid, which):
+    """Each of these pushes a setting to every descendant: assign it, then recurse over ALL children with the same argument."""
+    for cls, name, field, only_strats in which:
+        fi = chk.prog.func(CORE, cls, name)
+        S = chk.summary(CORE, cls, name, host=cls, no_inline=(name,))
+        host = "%s.%s" % (cls, name)
+        chk.site()
+        arg = ("param", fi.params[1])
+        if field is not None:
+            w = S.writes(field, SELF)
+            ok = bool(w) and canon(w[-1].value) == canon(arg) and not plain(w[-1].guard)
+            chk.ob("C19.R2", ok, CORE, host, "assign:%s" % field, "%s stores the pushed setting on the node" % host, where=fi.where, found=short(w[-1].value) if w else "no assignment")
+        rec = [e for e in S.calls(name) if e.recv is not None and e.recv[0] == "elem"]
+        ok = False
+        for e in rec:
+            it = e.recv[1]
+            over_children = (it[0] == "fld" and it[2] == "_childrenv") or (it[0] == "mcall" and it[2] == "values") or (it[0] == "call" and it[1] == "list")
+            same_arg = e.args and canon(e.args[0]) == canon(arg)
+            filt = [l for l in plain(e.guard)]
+            if only_strats:
+                filt_ok = all(p and a[0] == "call" and a[1] == "isinstance" and a[2][1] == ("class", "StrategyBase") for a, p in filt) and len(filt) == 1
+            else:
+                filt_ok = not filt
+            ok = ok or (over_children and same_arg and filt_ok)
+        chk.ob("C19.R2", ok, CORE, host, "recurse-all-children", "%s reaches every %s below the node with the same argument" % (host, "sub-strategy" if only_strats else "descendant"),
+               where=fi.where, expected="for c in children: c.%s(%s)" % (name, fi.params[1]), found="%d recursive call sites" % len(rec),
+               sample={"host": host, "recursion": [repr(e)[:100] for e in rec]})
+
+
+def set_commissions_rules(chk, pid):
+    recursion_rules(chk, pid, [("StrategyBase", "set_commissions", "commission_fn", True)])
